@@ -175,18 +175,23 @@ def blank(i, op):
             "base_failset": [], "failset": [], "writes": [], "unchanged": True}
 
 
-def ruletest_event(i, rr, doc, entry="raw", lit=None, spec=None):
-    """spec: when given, the rule is built by Rule.from_spec(spec) (a spelling of the recipe rr) instead of the API"""
+def ruletest_event(i, rr, doc, entry="raw", lit=None, spec=None, shared=None):
+    """spec: when given, the rule is built by Rule.from_spec(spec) (a spelling of the recipe rr) instead of the API.
+    shared: a dict kept by the caller; the Rule object built on the first call is re-used on later calls."""
     import valida
 
     e = blank(i, "ruletest")
     e["entry"] = entry
     e["rule"] = enc_rule_recipe(rr)
     e["doc"] = enc_val(doc)
-    if spec is not None:
+    if shared is not None and "rule" in shared:
+        out0, rule = "ok", shared["rule"]
+    elif spec is not None:
         out0, rule = outcome_of(lambda: valida.Rule.from_spec(spec))
     else:
         out0, rule = outcome_of(lambda: build_rule(rr))
+    if shared is not None and rule is not None:
+        shared["rule"] = rule
     if out0 in ("raised:TypeError", "raised:ValueError"):
         raise TypeError("unconstructible recipe")
     if out0 != "ok":
@@ -217,16 +222,23 @@ def ruletest_event(i, rr, doc, entry="raw", lit=None, spec=None):
     return e
 
 
-def validate_obs(rules_rr, doc):
-    """run Schema(rules).validate(doc); returns (outcome, dict of observations, schema)"""
+def validate_obs(rules_rr, doc, shared=None):
+    """run Schema(rules).validate(doc); returns (outcome, dict of observations).
+    shared: a dict kept by the caller: the Schema object (and its rules) built on the first call is RE-USED on later
+    calls with the same dict, so that anything a validation leaves behind in the schema shows in the next one."""
     import valida
 
-    out0, rules = outcome_of(lambda: [build_rule(rr) for rr in rules_rr])
-    if out0 in ("raised:TypeError", "raised:ValueError"):
-        raise TypeError("unconstructible recipe")
-    if out0 != "ok":
-        return out0, {"outcome": out0, "order": [], "writes": [], "unchanged": True}
-    schema = valida.Schema(rules)
+    if shared is not None and "schema" in shared:
+        rules, schema = shared["rules"], shared["schema"]
+    else:
+        out0, rules = outcome_of(lambda: [build_rule(rr) for rr in rules_rr])
+        if out0 in ("raised:TypeError", "raised:ValueError"):
+            raise TypeError("unconstructible recipe")
+        if out0 != "ok":
+            return out0, {"outcome": out0, "order": [], "writes": [], "unchanged": True}
+        schema = valida.Schema(rules)
+        if shared is not None:
+            shared["rules"], shared["schema"] = rules, schema
     order = []
     for r in schema.rules:
         order.append(next(j for j, x in enumerate(rules, 1) if x is r))
@@ -254,12 +266,12 @@ def validate_obs(rules_rr, doc):
     return out, o
 
 
-def validate_event(i, rules_rr, doc, perm=None, base=None):
+def validate_event(i, rules_rr, doc, perm=None, base=None, shared=None):
     """perm: positions (1-based, into the base rule list) of the rules as given here"""
     e = blank(i, "validate")
     e["rules"] = [enc_rule_recipe(rr) for rr in rules_rr]
     e["doc"] = enc_val(doc)
-    out, o = validate_obs(rules_rr, doc)
+    out, o = validate_obs(rules_rr, doc, shared)
     e["outcome"] = out
     e["order"] = o["order"]
     e["writes"] = o["writes"]
@@ -274,6 +286,25 @@ def validate_event(i, rules_rr, doc, perm=None, base=None):
         e["base_valid"], e["base_nfail"], e["base_ntested"] = base["valid"], base["nfail"], base["ntested"]
         e["base_failset"] = base["failset"]
     return e
+
+
+def retype(rng, x, p=0.6):
+    """an equal-under-python-== but differently typed copy: 1 <-> True <-> 1.0, 0 <-> False <-> 0.0, 2 <-> 2.0"""
+    if isinstance(x, dict):
+        return {k: retype(rng, v, p) for k, v in x.items()}
+    if isinstance(x, list):
+        return [retype(rng, v, p) for v in x]
+    if rng.random() > p:
+        return x
+    if isinstance(x, bool):
+        return rng.choice([int(x), float(x)])
+    if isinstance(x, int) and x in (0, 1):
+        return rng.choice([bool(x), float(x)])
+    if isinstance(x, int) and abs(x) < 10 ** 6:
+        return float(x)
+    if isinstance(x, float) and x == int(x):
+        return int(x) if x not in (0.0, 1.0) else rng.choice([int(x), bool(x)])
+    return x
 
 
 # ------------------------------------------------------------------ generators
